@@ -136,6 +136,11 @@ class AbstractEval:
         self.def_of = def_of  # optional: definition-site term → the expression assigned there
 
     def ev(self, node: ast.AST) -> Any:
+        # `k in d.keys()` is `k in d`
+        if isinstance(node, ast.Compare) and len(node.ops) == 1 and isinstance(node.ops[0], (ast.In, ast.NotIn)):
+            c0 = node.comparators[0]
+            if isinstance(c0, ast.Call) and isinstance(c0.func, ast.Attribute) and c0.func.attr == "keys" and not c0.args and not c0.keywords:
+                node = ast.Compare(left=node.left, ops=node.ops, comparators=[c0.func.value])
         txt = ast.unparse(node)
         if txt in self.region:
             return self.region[txt]
